@@ -1,6 +1,6 @@
 (* Proofs/MlirP.v — lemmas about Model/Mlir.v: ownership protocol, layouts, format inference. *)
 From Coq Require Import ZArith List Bool Lia Arith PeanoNat.
-From Verif Require Import Py Shape S_mlir Mlir.
+From Verif Require Import Py Shape S_mlir S_mlir_df Mlir.
 Import ListNotations.
 
 (* ========================================================================================== *)
@@ -61,7 +61,8 @@ Record inv (s : state) : Prop := mkInv {
   i_refs_lt : forall i r, In r (o_refs (get s i)) -> r < nobj s;
   i_dead_nd : NoDup (s_dead s);
   i_freed_from : forall b, In b (s_freed s) -> exists f, In f (s_dead s) /\ In b (o_frees (get s f));
-  i_freed_nd : NoDup (s_freed s) }.
+  i_freed_nd : NoDup (s_freed s);
+  i_nobare : forall i, o_kind (get s i) <> KBareView }.
 
 Lemma liveb_spec s i : liveb s i = true <-> i < nobj s /\ ~ In i (s_dead s).
 Proof.
@@ -135,9 +136,10 @@ Lemma inv_push1 s o nb :
   (o_kind o = KArray -> exists sid, o_under o = Some sid /\ In sid (o_refs o)
                                     /\ incl (o_bufs o) (o_bufs (get s sid))) ->
   (forall t, is_ndarray (o_kind o) = true -> o_under o = Some t -> In t (o_refs o)) ->
+  o_kind o <> KBareView ->
   inv (push_objs s [o] (nobj s) nb).
 Proof.
-  intros I Hrefs Hbufs Hfrees Hnd Hpath Harr Hview.
+  intros I Hrefs Hbufs Hfrees Hnd Hpath Harr Hview Hnb.
   assert (Hn' : nobj (push_objs s [o] (nobj s) nb) = S (nobj s)).
   { unfold nobj, push_objs; simpl. rewrite app_length; simpl. lia. }
   assert (Hrl : forall r, In r (o_refs o) -> r < nobj s).
@@ -191,8 +193,8 @@ Proof.
   - (* freed_from *) intros b Hb. simpl in Hb. destruct (i_freed_from s I b Hb) as [f [Hd Hf]].
     exists f. split; [assumption|]. rewrite get_push_old by (apply (i_dead_lt s I); assumption). assumption.
   - (* freed_nd *) simpl. apply (i_freed_nd s I).
+  - (* nobare *) intros i. case_id s i; [apply (i_nobare s I)|assumption|simpl; discriminate].
 Qed.
-
 
 Lemma inv_roots s roots' :
   inv s -> (forall r, In r roots' -> liveb s r = true) ->
@@ -231,13 +233,13 @@ Proof.
     subst. tauto.
 Qed.
 
-Definition good (c : cfg) : Prop := edges_ok c = true /\ c_wrapped c = false.
+Definition good (c : cfg) : Prop := edges_ok c = true.
 
 Lemma good_fields c : good c ->
   c_view_storage c = true /\ c_storage_input c = true /\ c_array_storage c = true
-  /\ c_owns_from c = false /\ c_wrapped c = false.
+  /\ c_owns_from c = false.
 Proof.
-  intros [H W]. unfold edges_ok, required_edges in H. simpl in H.
+  intros H. unfold good, edges_ok, required_edges in H. simpl in H.
   rewrite !andb_true_iff in H. rewrite negb_true_iff in H. tauto.
 Qed.
 
@@ -289,6 +291,7 @@ Proof.
       destruct (i_freed_from s I b Hf) as [f [Hd Hbf]].
       assert (k = f) by (eapply i_uniq; eauto). subst f.
       apply HKl in Hk. destruct Hk as [Hk _]. apply liveb_spec in Hk. tauto.
+  - apply (i_nobare s I).
 Qed.
 
 Lemma forallb_and3 {A} (p q r : A -> bool) l x :
@@ -297,86 +300,93 @@ Proof.
   intros H Hx. rewrite forallb_forall in H. specialize (H x Hx). rewrite !andb_true_iff in H. tauto.
 Qed.
 
-Lemma inv_step c s e : good c -> inv s -> inv (step c s e).
+Lemma inv_step c s e :
+  good c -> (c_wrapped c = false \/ is_collapse e = false) -> inv s -> inv (step c s e).
 Proof.
-  intros G I. destruct (good_fields c G) as [Gvs [Gsi [Gas [Gof Gw]]]].
-  destruct e as [|srcs|op args nb|sid|r|a k|v|i|K]; simpl.
+  intros G HC I. destruct (good_fields c G) as [Gvs [Gsi [Gas Gof]]].
+  destruct e as [|srcs|op args nb|sid|r|a k|v|v|i|K]; simpl.
   - (* ENewNumpy *)
-    apply inv_push1; simpl; try assumption; try tauto.
+    apply inv_push1; simpl; try assumption; try tauto; try discriminate.
     + intros b [<-|[]]. lia.
     + intros b [<-|[]]. lia.
     + repeat constructor; simpl; tauto.
     + intros b f [<-|[]] Hf. apply (i_frees_lt s I) in Hf. lia.
-    + discriminate.
-    + discriminate.
   - (* EFromArrays *)
     destruct (forallb _ srcs) eqn:Hc; [|assumption].
     rewrite Gsi, Gof.
-    apply inv_push1; simpl; try assumption; try tauto.
+    apply inv_push1; simpl; try assumption; try tauto; try discriminate.
     + intros r Hr. destruct (forallb_and3 _ _ _ _ _ Hc Hr) as [_ [Hl _]]. assumption.
     + intros b Hb. apply in_flat_map in Hb. destruct Hb as [r [_ Hb]]. apply (i_bufs_lt s I) in Hb. lia.
     + constructor.
     + intros b f Hb Hf. apply in_flat_map in Hb. destruct Hb as [r [Hr Hb]].
       exists r. split; [assumption|]. eapply i_path; eauto.
-    + discriminate.
-    + discriminate.
   - (* EOp *)
     destruct (forallb _ args) eqn:Hc; [|assumption].
-    apply inv_push1; simpl; try assumption; try tauto.
+    apply inv_push1; simpl; try assumption; try tauto; try discriminate.
     + intros b Hb. apply in_seq in Hb. lia.
     + intros b Hb. destruct (c_owns_op c op); [apply in_seq in Hb; lia|simpl in Hb; tauto].
     + destruct (c_owns_op c op); [apply seq_NoDup|constructor].
     + intros b f Hb Hf. apply in_seq in Hb. apply (i_frees_lt s I) in Hf. lia.
-    + discriminate.
-    + discriminate.
   - (* EWrap *)
     destruct (rootb s sid && liveb s sid && is_storage (o_kind (get s sid))) eqn:Hc; [|assumption].
     rewrite !andb_true_iff in Hc. destruct Hc as [[_ Hl] _].
     rewrite Gas.
-    apply inv_push1; simpl; try assumption; try tauto.
+    apply inv_push1; simpl; try assumption; try tauto; try discriminate.
     + intros r [<-|[]]. assumption.
     + intros b Hb. apply (i_bufs_lt s I) in Hb. lia.
     + constructor.
     + intros b f Hb Hf. exists sid. split; [left; reflexivity|]. eapply i_path; eauto.
     + intros _. exists sid. split; [reflexivity|]. split; [left; reflexivity|]. apply incl_refl.
-    + discriminate.
   - (* EAlias *)
     destruct (rootb s r) eqn:Hr; [|assumption].
     apply inv_roots; [assumption|]. intros x [<-|Hx].
     + apply (i_roots s I). apply memn_In. exact Hr.
     + apply (i_roots s I). assumption.
-  - (* EGetView *)
+  - (* EGetView: the same edges whether or not the dtype is wrapped *)
     destruct (rootb s a && liveb s a && is_array (o_kind (get s a))) eqn:Hc; [|assumption].
     rewrite !andb_true_iff in Hc. destruct Hc as [[_ Hl] Hk].
     destruct (o_under (get s a)) as [sid|] eqn:Hu; [|assumption].
     destruct (nth_error (o_bufs (get s a)) k) as [b|] eqn:Hb; [|assumption].
-    rewrite Gw, Gvs.
+    rewrite Gvs.
     assert (Hka : o_kind (get s a) = KArray) by (destruct (o_kind (get s a)); simpl in Hk; congruence).
     destruct (i_array s I a Hka) as [sid' [Hu' [Hin Hincl]]].
     assert (sid' = sid) by congruence. subst sid'.
     apply nth_error_In in Hb.
-    apply inv_push1; simpl; try assumption; try tauto.
+    apply inv_push1; simpl; try assumption; try tauto; try discriminate.
     + intros r [<-|[]]. eapply i_closed; eauto.
     + intros b' [<-|[]]. apply (i_bufs_lt s I) in Hb. lia.
     + constructor.
     + intros b' f [<-|[]] Hf. exists sid. split; [left; reflexivity|].
       eapply i_path; eauto.
-    + discriminate.
-    + discriminate.
+    + destruct (c_wrapped c); discriminate.
+    + destruct (c_wrapped c); discriminate.
   - (* EDerive *)
-    destruct (rootb s v && liveb s v && is_ndarray (o_kind (get s v))) eqn:Hc; [|assumption].
-    rewrite !andb_true_iff in Hc. destruct Hc as [[_ Hl] Hk].
+    destruct (rootb s v && liveb s v) eqn:Hc; [|assumption].
+    rewrite !andb_true_iff in Hc. destruct Hc as [_ Hl].
     set (t := match o_under (get s v) with Some t => t | None => v end).
-    assert (Ht : liveb s t = true).
-    { unfold t. destruct (o_under (get s v)) as [t'|] eqn:Hu; [|assumption].
+    assert (Hnd : is_ndarray (o_kind (get s v)) = true ->
+                  liveb s t = true).
+    { intros Hk. unfold t. destruct (o_under (get s v)) as [t'|] eqn:Hu; [|assumption].
       apply (i_closed s I v); [assumption|]. apply (i_view s I); assumption. }
-    apply inv_push1; simpl; try assumption; try tauto.
-    + intros r [<-|[]]. assumption.
-    + intros b Hb. apply (i_bufs_lt s I) in Hb. lia.
-    + constructor.
-    + intros b f Hb Hf. exists t. split; [left; reflexivity|]. eapply i_path; eauto.
-    + discriminate.
-    + intros t' _ Ht'. left. congruence.
+    destruct (o_kind (get s v)) eqn:Hk; try assumption.
+    + (* KNumpy *)
+      apply inv_push1; simpl; try assumption; try tauto; try discriminate.
+      * intros r [<-|[]]. auto.
+      * intros b Hb. apply (i_bufs_lt s I) in Hb. lia.
+      * constructor.
+      * intros b f Hb Hf. exists t. split; [left; reflexivity|]. eapply i_path; eauto.
+      * intros t' _ Ht'. left. congruence.
+    + (* KView *)
+      apply inv_push1; simpl; try assumption; try tauto; try discriminate.
+      * intros r [<-|[]]. auto.
+      * intros b Hb. apply (i_bufs_lt s I) in Hb. lia.
+      * constructor.
+      * intros b f Hb Hf. exists t. split; [left; reflexivity|]. eapply i_path; eauto.
+      * intros t' _ Ht'. left. congruence.
+    + (* KBareView: none exists *)
+      exfalso. exact (i_nobare s I v Hk).
+  - (* ECollapse: excluded, or a no-op for an unwrapped configuration *)
+    destruct HC as [W|W]; [|discriminate]. rewrite W. simpl. assumption.
   - (* EDel *)
     apply inv_roots; [assumption|]. intros r Hr. apply remove_nth_In in Hr. apply (i_roots s I). assumption.
   - (* ECollect *)
@@ -384,17 +394,28 @@ Proof.
     apply inv_collect; assumption.
 Qed.
 
-Lemma inv_run_from c h s : good c -> inv s -> inv (fold_left (step c) h s).
+Lemma inv_run_from c h s :
+  good c -> (c_wrapped c = false \/ no_collapse h = true) -> inv s -> inv (fold_left (step c) h s).
 Proof.
-  intros G. revert s. induction h as [|e h IH]; intros s I; simpl; [assumption|].
-  apply IH. apply inv_step; assumption.
+  intros G. revert s. induction h as [|e h IH]; intros s HC I; simpl; [assumption|].
+  apply IH.
+  - destruct HC as [W|N]; [left; assumption|right].
+    unfold no_collapse in *. simpl in N. apply andb_true_iff in N. tauto.
+  - apply inv_step; try assumption.
+    destruct HC as [W|N]; [left; assumption|right].
+    unfold no_collapse in N. simpl in N. apply andb_true_iff in N. destruct N as [N _].
+    apply negb_true_iff in N. exact N.
 Qed.
 
+(* every view-creation pattern is safe except ECollapse — a NumPy view derived from a wrapped memref
+   view (what to_numpy does for complex64/128 and float16, and what slicing an array returned by
+   get_constituent_arrays() does for those dtypes) *)
 Theorem no_use_after_free_proof :
-  forall (c : cfg) (h : list event), edges_ok c = true -> c_wrapped c = false ->
+  forall (c : cfg) (h : list event), edges_ok c = true ->
+    (c_wrapped c = false \/ no_collapse h = true) ->
     safeb (run c h) = true /\ free_once (run c h) = true.
 Proof.
-  intros c h E W. apply inv_safe. apply inv_run_from; [split; assumption|apply inv_init].
+  intros c h E W. apply inv_safe. apply inv_run_from; [exact E|exact W|apply inv_init].
 Qed.
 
 End Ownership.
@@ -516,6 +537,32 @@ Proof.
   rewrite zrange2_0. cbn [map]. rewrite flat_map_single, map_map. apply map_ext. intros k. reflexivity.
 Qed.
 
+Lemma csf3_layout n0 n1 n2 pos1 crd1 pos2 crd2 (data : list V) :
+  storage_entries v0 (map l_fmt (csf_levels 3)) [0; 1; 2] [n0; n1; n2] [pos1; crd1; pos2; crd2] data
+  = Some (csf3_entries v0 n0 pos1 crd1 pos2 crd2 data).
+Proof.
+  unfold storage_entries. change (lvl_shape [0; 1; 2] [n0; n1; n2]) with [n0; n1; n2].
+  cbn [csf_levels repeat map l_fmt lv_dense lv_compressed assemble option_map walk]. f_equal. unfold csf3_entries.
+  rewrite map_flat_map. apply flat_map_ext_in. intros i _.
+  replace (0 * n0 + i) with i by lia.
+  rewrite map_flat_map, map_flat_map. apply flat_map_ext_in. intros k1 _.
+  cbn [map]. rewrite flat_map_single, !map_map. apply map_ext. intros k2. reflexivity.
+Qed.
+
+Lemma csf4_layout n0 n1 n2 n3 pos1 crd1 pos2 crd2 pos3 crd3 (data : list V) :
+  storage_entries v0 (map l_fmt (csf_levels 4)) [0; 1; 2; 3] [n0; n1; n2; n3]
+                  [pos1; crd1; pos2; crd2; pos3; crd3] data
+  = Some (csf4_entries v0 n0 pos1 crd1 pos2 crd2 pos3 crd3 data).
+Proof.
+  unfold storage_entries. change (lvl_shape [0; 1; 2; 3] [n0; n1; n2; n3]) with [n0; n1; n2; n3].
+  cbn [csf_levels repeat map l_fmt lv_dense lv_compressed assemble option_map walk]. f_equal. unfold csf4_entries.
+  rewrite map_flat_map. apply flat_map_ext_in. intros i _.
+  replace (0 * n0 + i) with i by lia.
+  rewrite map_flat_map, map_flat_map. apply flat_map_ext_in. intros k1 _.
+  rewrite map_flat_map, map_flat_map, map_flat_map. apply flat_map_ext_in. intros k2 _.
+  cbn [map]. rewrite flat_map_single, !map_map. apply map_ext. intros k3. reflexivity.
+Qed.
+
 End LayoutP.
 
 (* the statements tied to the extracted array orders *)
@@ -566,32 +613,6 @@ Proof.
 Qed.
 End Roundtrip.
 
-(* to_numpy's order inversion, ranks 1..4 *)
-Section ToNumpy.
-Open Scope Z_scope.
-
-Ltac destr_list l :=
-  destruct l as [|? [|? [|? [|? [|? ?]]]]]; try discriminate.
-
-Theorem to_numpy_order_correct_proof :
-  forall order, In order (perms_upto 4) ->
-  forall sh ix, length sh = length order -> length ix = length order ->
-    to_numpy_shape order sh = sh /\ to_numpy_pos order sh ix = dense_pos order sh ix.
-Proof.
-  intros order Hin. vm_compute in Hin.
-  repeat (destruct Hin as [<-|Hin];
-    [intros sh ix Hs Hi; destr_list sh; destr_list ix; split; reflexivity|]).
-  destruct Hin.
-Qed.
-
-(* non-vacuity: a 3-cycle (its own inverse is a different permutation) on a non-uniform shape *)
-Example to_numpy_nonvacuous :
-  In [1; 2; 0] (perms_upto 4)
-  /\ to_numpy_shape [1; 2; 0] [2; 3; 4] = [2; 3; 4] /\ to_numpy_pos [1; 2; 0] [2; 3; 4] [1; 2; 3] = 23
-  /\ length (perms_upto 4) = 33%nat.
-Proof. vm_compute. tauto. Qed.
-End ToNumpy.
-
 (* ========================================================================================== *)
 (* A. _determine_format                                                                        *)
 Section DetFmt.
@@ -610,9 +631,9 @@ Proof.
   intros H. inversion H; subst. unfold fmt_wfb, frank. simpl. auto.
 Qed.
 
-Lemma gsdl_ok ns n lv : get_sparse_dense_levels ns (Z.of_nat n) = Ok lv -> length lv = n.
+Lemma gsdl_len ns n lv : get_sparse_dense_levels ns (Z.of_nat n) = Ok lv -> length lv = n.
 Proof.
-  unfold get_sparse_dense_levels. destruct (_ && _ && _) eqn:E; [|discriminate].
+  unfold get_sparse_dense_levels, gsdl_ok. destruct (_ && _ && _) eqn:E; [|discriminate].
   rewrite !andb_true_iff, !Z.leb_le in E. intros H. inversion H; subst.
   rewrite app_length, !repeat_length. lia.
 Qed.
@@ -631,7 +652,7 @@ Proof.
     destruct (get_sparse_dense_levels _ _) as [lv|] eqn:El; [|discriminate]. cbn [bind].
     intros H. apply gcf_ok in H. destruct H as [Hw [Hl [Hp Hc]]].
     split; [assumption|]. split.
-    + unfold frank. rewrite Hl. apply gsdl_ok in El. rewrite El. unfold n, out_rank. reflexivity.
+    + unfold frank. rewrite Hl. apply gsdl_len in El. rewrite El. unfold n, out_rank. reflexivity.
     + intros _. split; assumption.
 Qed.
 
@@ -752,12 +773,10 @@ Proof.
   assert (Hnc : 0 <= nc).
   { unfold nc. etransitivity; [|apply fold_zmax_ge]. unfold counter. destruct union;
       [apply count_nonneg_dense|apply count_nonneg_sparse]. }
-  set (nc' := if Z.of_nat n <? nc then Z.of_nat n else nc).
-  assert (Hnc' : 0 <= nc' <= Z.of_nat n).
-  { unfold nc'. destruct (Z.ltb_spec (Z.of_nat n) nc); lia. }
-  unfold get_sparse_dense_levels.
-  set (ns := if union then Z.of_nat n - nc' else nc').
-  assert (Hns : 0 <= ns <= Z.of_nat n) by (unfold ns; destruct union; lia).
+  unfold get_sparse_dense_levels, gsdl_ok.
+  set (ns := df_nsparse (Z.of_nat n) nc union).
+  assert (Hns : 0 <= ns <= Z.of_nat n).
+  { unfold ns, df_nsparse. destruct (Z.ltb_spec (Z.of_nat n) nc); destruct union; lia. }
   replace ((0 <=? Z.of_nat n) && (0 <=? Z.of_nat n - ns) && (0 <=? ns)) with true
     by (symmetry; rewrite !andb_true_iff, !Z.leb_le; lia).
   cbn [bind]. unfold get_concrete_format.
@@ -792,6 +811,52 @@ Proof.
   - apply IH. assumption.
 Qed.
 
+(* ---- the translated scalar decisions of the source equal the model's sub-expressions, for all inputs *)
+Definition oz (o : option Z) : pyv := match o with None => VNone | Some z => VInt z end.
+
+Theorem determine_format_source_tie_proof :
+  (* empty case: out_ndim default, level kind (0 dense / 1 compressed) *)
+  (forall on : option Z, g_df_empty_ndim (oz on) = Ok (VInt (match on with Some n => n | None => 0 end)))
+  /\ (forall u : bool, g_df_empty_level (VBool u) = Ok (VInt (if u then 0 else 1)))
+  (* which counter: 0 = _count_dense_levels, 1 = _count_sparse_levels *)
+  /\ (forall u : bool, g_df_counter (VBool u) = Ok (VInt (if u then 0 else 1)))
+  (* loop body: running maxima, n_counted starting from None *)
+  /\ (forall c, g_df_step_count VNone (VInt c) = Ok (VInt c))
+  /\ (forall a c, g_df_step_count (VInt a) (VInt c) = Ok (VInt (Z.max a c)))
+  /\ (forall a w, g_df_step_pos (VInt a) (VInt w) = Ok (VInt (Z.max a w)))
+  /\ (forall a w, g_df_step_crd (VInt a) (VInt w) = Ok (VInt (Z.max a w)))
+  (* clamp and n_sparse *)
+  /\ (forall n nc u, g_df_nsparse (VInt n) (VInt nc) (VBool u) = Ok (VInt (df_nsparse n nc u)))
+  (* _get_sparse_dense_levels(n_sparse=, ndim=): guard not taken, n_dense filled in, the three asserts *)
+  /\ (forall ns nd, g_gsdl_guard (VInt ns) VNone (VInt nd) = Ok (VBool false))
+  /\ (forall ns nd, g_gsdl_fill (VInt ns) VNone (VInt nd) = Ok (VTuple [VInt ns; VInt (nd - ns); VInt nd]))
+  /\ (forall nd ndn ns, g_gsdl_ok (VInt nd) (VInt ndn) (VInt ns) = Ok (VBool (gsdl_ok nd ndn ns))).
+Proof.
+  repeat apply conj.
+  - intros [n|]; reflexivity.
+  - intros [|]; reflexivity.
+  - intros [|]; reflexivity.
+  - intros c. reflexivity.
+  - intros a c. unfold g_df_step_count. cbn. destruct (Z.ltb_spec a c); f_equal; f_equal; lia.
+  - intros a w. unfold g_df_step_pos. cbn. destruct (Z.ltb_spec a w); f_equal; f_equal; lia.
+  - intros a w. unfold g_df_step_crd. cbn. destruct (Z.ltb_spec a w); f_equal; f_equal; lia.
+  - intros n nc u. unfold g_df_nsparse, df_nsparse. cbn.
+    destruct (Z.ltb_spec n nc); destruct u; reflexivity.
+  - intros ns nd. reflexivity.
+  - intros ns nd. reflexivity.
+  - intros nd ndn ns. unfold g_gsdl_ok, gsdl_ok. cbn.
+    rewrite !Z.geb_leb.
+    destruct (0 <=? nd); [|reflexivity]. cbn. destruct (0 <=? ndn); [|reflexivity]. cbn. reflexivity.
+Qed.
+
+(* the loop's running maximum from None equals the model's fold from the first counter *)
+Lemma step_count_fold cs : forall c0,
+  fold_left (fun acc c => match acc with None => Some c | Some a => Some (Z.max a c) end) (c0 :: cs) None
+  = Some (fold_left Z.max cs c0).
+Proof.
+  simpl. induction cs as [|c cs IH]; intros c0; simpl; [reflexivity|]. apply IH.
+Qed.
+
 Example determine_format_nonvacuous :
   let csr := mkFmt (csf_levels 2) [0; 1] 32 32 in
   let csc := mkFmt (csf_levels 2) [1; 0] 64 32 in
@@ -800,6 +865,205 @@ Example determine_format_nonvacuous :
 Proof. split; reflexivity. Qed.
 
 End DetFmt.
+
+(* to_numpy's order inversion: every rank, every level order *)
+Section ToNumpy.
+Open Scope Z_scope.
+
+Lemma upd_length l : forall k v, length (upd l k v) = length l.
+Proof. induction l as [|x l IH]; intros [|k] v; simpl; auto. Qed.
+
+Lemma nth_upd_same l : forall k v d, (k < length l)%nat -> nth k (upd l k v) d = v.
+Proof. induction l as [|x l IH]; intros [|k] v d H; simpl in *; try lia; auto. apply IH. lia. Qed.
+
+Lemma nth_upd_other l : forall k k' v d, k <> k' -> nth k' (upd l k v) d = nth k' l d.
+Proof.
+  induction l as [|x l IH]; intros [|k] [|k'] v d H; simpl; auto; try congruence.
+Qed.
+
+Section Scat.
+  Context {A : Type} (f : A -> nat) (g : A -> Z).
+  Definition scat (l : list A) (init : list Z) := fold_left (fun acc a => upd acc (f a) (g a)) l init.
+
+  Lemma scat_length l : forall init, length (scat l init) = length init.
+  Proof. induction l as [|a l IH]; intros init; simpl; [reflexivity|]. unfold scat in IH. rewrite IH. apply upd_length. Qed.
+
+  Lemma scat_other l : forall init k, ~ In k (map f l) -> nth k (scat l init) 0 = nth k init 0.
+  Proof.
+    induction l as [|a l IH]; intros init k H; simpl; [reflexivity|].
+    unfold scat in IH. rewrite IH by (simpl in H; tauto). apply nth_upd_other. simpl in H. tauto.
+  Qed.
+
+  Lemma scat_nth l : forall init, NoDup (map f l) -> (forall a, In a l -> (f a < length init)%nat) ->
+    forall a, In a l -> nth (f a) (scat l init) 0 = g a.
+  Proof.
+    induction l as [|a0 l IH]; intros init Hnd Hb a Ha; [destruct Ha|].
+    simpl in Hnd. inversion Hnd as [|? ? Hn0 Hnd']; subst. simpl.
+    destruct Ha as [<-|Ha].
+    - fold (scat l (upd init (f a0) (g a0))). rewrite scat_other by assumption.
+      apply nth_upd_same. apply Hb. left; reflexivity.
+    - apply (IH (upd init (f a0) (g a0))); try assumption.
+      intros a' Ha'. rewrite upd_length. apply Hb. right; assumption.
+  Qed.
+End Scat.
+
+Lemma map_snd_combine {A B} (a : list A) : forall (b : list B), length a = length b -> map snd (combine a b) = b.
+Proof. induction a as [|x a IH]; intros [|y b] H; simpl in *; try discriminate; [reflexivity|]. f_equal. apply IH. lia. Qed.
+
+Lemma map_fst_combine {A B} (a : list A) : forall (b : list B), length a = length b -> map fst (combine a b) = a.
+Proof. induction a as [|x a IH]; intros [|y b] H; simpl in *; try discriminate; [reflexivity|]. f_equal. apply IH. lia. Qed.
+
+Lemma NoDup_map_to_nat l : NoDup l -> (forall x, In x l -> 0 <= x) -> NoDup (map Z.to_nat l).
+Proof.
+  induction 1 as [|x l Hx Hnd IH]; intros Hp; simpl; constructor.
+  - rewrite in_map_iff. intros [y [He Hy]].
+    assert (x = y). { apply Z2Nat.inj; [apply Hp; left; reflexivity|apply Hp; right; assumption|congruence]. }
+    subst. tauto.
+  - apply IH. intros; apply Hp; right; assumption.
+Qed.
+
+Lemma nth_map_lt {A B} (f : A -> B) l k d d' : (k < length l)%nat -> nth k (map f l) d' = f (nth k l d).
+Proof. intros H. rewrite (nth_indep _ d' (f d)) by (rewrite map_length; exact H). apply map_nth. Qed.
+
+Lemma nth_zseq n k : (k < n)%nat -> nth k (zseq 0 n) 0 = Z.of_nat k.
+Proof. intros H. unfold zseq. rewrite (nth_map_lt _ _ _ 0%nat) by (rewrite seq_length; exact H). rewrite seq_nth by exact H. reflexivity. Qed.
+
+Section Perm.
+  Variable order : list Z.
+  Hypothesis Hperm : is_permb order (length order) = true.
+  Let n := length order.
+
+  Lemma perm_range x : In x order -> 0 <= x < Z.of_nat n.
+  Proof. apply is_permb_spec in Hperm. destruct Hperm as [_ [H _]]. apply H. Qed.
+  Lemma perm_nodup : NoDup order.
+  Proof. apply is_permb_spec in Hperm. tauto. Qed.
+
+  Lemma inv_as_scat :
+    inv_order order = scat (fun io : Z * Z => Z.to_nat (snd io)) fst (combine (zseq 0 n) order) (repeat 0 n).
+  Proof. reflexivity. Qed.
+
+  Lemma inv_length : length (inv_order order) = n.
+  Proof. rewrite inv_as_scat, scat_length. apply repeat_length. Qed.
+
+  Lemma zseq_length a k : length (zseq a k) = k.
+  Proof. unfold zseq. rewrite map_length. apply seq_length. Qed.
+
+  (* inv[order[i]] = i *)
+  Lemma inv_of_order i : (i < n)%nat -> nth (Z.to_nat (nth i order 0)) (inv_order order) 0 = Z.of_nat i.
+  Proof.
+    intros Hi. rewrite inv_as_scat.
+    pose (a := (Z.of_nat i, nth i order 0)).
+    pose (f := fun io : Z * Z => Z.to_nat (snd io)).
+    assert (Hnd : NoDup (map f (combine (zseq 0 n) order))).
+    { unfold f. rewrite <- (map_map snd Z.to_nat). rewrite map_snd_combine by (rewrite zseq_length; reflexivity).
+      apply NoDup_map_to_nat; [apply perm_nodup|]. intros x Hx. apply perm_range in Hx. lia. }
+    assert (Hb : forall a0, In a0 (combine (zseq 0 n) order) -> (f a0 < length (repeat 0%Z n))%nat).
+    { intros [z o] Hin. apply in_combine_r in Hin. apply perm_range in Hin. rewrite repeat_length. unfold f. simpl. lia. }
+    assert (Hin : In a (combine (zseq 0 n) order)).
+    { unfold a. rewrite <- (nth_zseq n i Hi).
+      rewrite <- (combine_nth (zseq 0 n) order i 0 0) by (rewrite zseq_length; reflexivity).
+      apply nth_In. rewrite combine_length, zseq_length. fold n. lia. }
+    exact (scat_nth f fst (combine (zseq 0 n) order) (repeat 0 n) Hnd Hb a Hin).
+  Qed.
+
+  (* every axis is some level's dimension *)
+  Lemma order_surj d : (d < n)%nat -> exists i, (i < n)%nat /\ nth i order 0 = Z.of_nat d.
+  Proof.
+    intros Hd.
+    assert (Hin : In (Z.of_nat d) order).
+    { apply (NoDup_length_incl perm_nodup (l' := zseq 0 n)).
+      - rewrite zseq_length. fold n. lia.
+      - intros x Hx. apply zseq_In. apply perm_range in Hx. lia.
+      - apply zseq_In. lia. }
+    destruct (In_nth _ _ 0 Hin) as [i [Hi He]]. exists i. split; assumption.
+  Qed.
+
+  (* order[inv[d]] = d *)
+  Lemma order_of_inv d : (d < n)%nat ->
+    0 <= nth d (inv_order order) 0 < Z.of_nat n
+    /\ nth (Z.to_nat (nth d (inv_order order) 0)) order 0 = Z.of_nat d.
+  Proof.
+    intros Hd. destruct (order_surj d Hd) as [i [Hi He]].
+    pose proof (inv_of_order i Hi) as H. rewrite He, Nat2Z.id in H. rewrite H, Nat2Z.id.
+    split; [lia|assumption].
+  Qed.
+
+  Lemma inv_nodup : NoDup (inv_order order).
+  Proof.
+    apply (NoDup_nth _ 0). rewrite inv_length. intros i j Hi Hj He.
+    destruct (order_of_inv i Hi) as [_ H1]. destruct (order_of_inv j Hj) as [_ H2].
+    rewrite He in H1. rewrite H1 in H2. lia.
+  Qed.
+
+  Lemma gather_length l ixs : length (gather l ixs) = length ixs.
+  Proof. apply map_length. Qed.
+
+  Lemma shape_back sh : length sh = n -> gather (gather sh order) (inv_order order) = sh.
+  Proof.
+    intros Hs. apply (nth_ext _ _ 0 0).
+    - rewrite gather_length, inv_length. symmetry. exact Hs.
+    - intros d Hd. rewrite gather_length, inv_length in Hd.
+      unfold gather at 1. rewrite (nth_map_lt _ _ _ 0) by (rewrite inv_length; exact Hd).
+      destruct (order_of_inv d Hd) as [Hr Ho].
+      unfold nthZ at 1. unfold gather.
+      rewrite (nth_map_lt _ _ _ 0) by (fold n; lia).
+      rewrite Ho. apply nthZ_of_nat.
+  Qed.
+
+  Lemma scatter_is_gather ix : length ix = n -> scatter (inv_order order) ix = gather ix order.
+  Proof.
+    intros Hx.
+    assert (Hsc : scatter (inv_order order) ix
+                  = scat (fun ai : Z * Z => Z.to_nat (fst ai)) snd (combine (inv_order order) ix)
+                         (repeat 0 (length (inv_order order)))) by reflexivity.
+    apply (nth_ext _ _ 0 0).
+    - rewrite Hsc, scat_length, repeat_length, inv_length, gather_length. reflexivity.
+    - intros l Hl. rewrite Hsc, scat_length, repeat_length, inv_length in Hl.
+      assert (Ho : 0 <= nth l order 0 < Z.of_nat n) by (apply perm_range; apply nth_In; exact Hl).
+      set (k := Z.to_nat (nth l order 0)).
+      assert (Hk : (k < n)%nat) by (unfold k; lia).
+      pose proof (inv_of_order l Hl) as Hinv. fold k in Hinv.
+      pose (a := (nth k (inv_order order) 0, nth k ix 0)).
+      pose (f := fun ai : Z * Z => Z.to_nat (fst ai)).
+      assert (Hfa : f a = l) by (unfold f, a; simpl; rewrite Hinv; apply Nat2Z.id).
+      assert (Hnd : NoDup (map f (combine (inv_order order) ix))).
+      { unfold f. rewrite <- (map_map fst Z.to_nat). rewrite map_fst_combine by (rewrite inv_length; lia).
+        apply NoDup_map_to_nat; [apply inv_nodup|].
+        intros x Hx'. destruct (In_nth _ _ 0 Hx') as [d [Hd <-]]. rewrite inv_length in Hd.
+        destruct (order_of_inv d Hd). lia. }
+      assert (Hb : forall a0, In a0 (combine (inv_order order) ix) ->
+                              (f a0 < length (repeat 0%Z (length (inv_order order))))%nat).
+      { intros [z v] Hin. apply in_combine_l in Hin. destruct (In_nth _ _ 0 Hin) as [d [Hd <-]].
+        rewrite inv_length in Hd. destruct (order_of_inv d Hd). rewrite repeat_length, inv_length. unfold f. simpl. lia. }
+      assert (Hin : In a (combine (inv_order order) ix)).
+      { unfold a. rewrite <- (combine_nth (inv_order order) ix k 0 0) by (rewrite inv_length; lia).
+        apply nth_In. rewrite combine_length, inv_length. lia. }
+      pose proof (scat_nth f snd (combine (inv_order order) ix) (repeat 0 (length (inv_order order))) Hnd Hb a Hin) as H.
+      rewrite Hfa in H. rewrite Hsc. fold f. rewrite H.
+      unfold a, gather. simpl. rewrite (nth_map_lt _ _ _ 0) by exact Hl. reflexivity.
+  Qed.
+End Perm.
+
+Theorem to_numpy_order_correct_proof :
+  forall order sh ix, is_permb order (length order) = true ->
+    length sh = length order -> length ix = length order ->
+    to_numpy_shape order sh = sh /\ to_numpy_pos order sh ix = dense_pos order sh ix.
+Proof.
+  intros order sh ix Hp Hs Hi.
+  unfold to_numpy_shape, to_numpy_pos, dense_pos, to_numpy_storage_shape, lvl_shape.
+  change site_to_numpy_shape_by_inverse with false. cbv iota.
+  split.
+  - apply shape_back; assumption.
+  - rewrite scatter_is_gather by assumption. reflexivity.
+Qed.
+
+(* non-vacuity: a 3-cycle on a non-uniform shape *)
+Example to_numpy_nonvacuous :
+  is_permb [1; 2; 0] 3 = true
+  /\ to_numpy_shape [1; 2; 0] [2; 3; 4] = [2; 3; 4] /\ to_numpy_pos [1; 2; 0] [2; 3; 4] [1; 2; 3] = 23.
+Proof. vm_compute. tauto. Qed.
+End ToNumpy.
+
 
 (* ========================================================================================== *)
 (* the protocol instantiated with the extracted site facts; refutations                        *)
@@ -814,19 +1078,37 @@ Theorem no_use_after_free_sites_proof :
     safeb (run (site_cfg (wrapped_dtype dt)) h) = true
     /\ free_once (run (site_cfg (wrapped_dtype dt)) h) = true.
 Proof.
-  intros dt h W. rewrite W. apply no_use_after_free_proof; reflexivity.
+  intros dt h W. rewrite W. apply no_use_after_free_proof; [reflexivity|left; reflexivity].
+Qed.
+
+(* wrapped dtypes: safe as long as no NumPy view is derived from a memref view *)
+Theorem no_use_after_free_wrapped_proof :
+  forall (dt : Z) (h : list event), no_collapse h = true ->
+    safeb (run (site_cfg (wrapped_dtype dt)) h) = true
+    /\ free_once (run (site_cfg (wrapped_dtype dt)) h) = true.
+Proof.
+  intros dt h N. apply no_use_after_free_proof; [destruct (wrapped_dtype dt); reflexivity|right; exact N].
 Qed.
 
 (* x = asarray(np_input); r = add(x, x); out = to_numpy(r); del r; collect  — with a wrapped dtype *)
 Definition uaf_history : list event :=
   [ENewNumpy; EFromArrays [0]; EWrap 1; EDel 1;          (* x = asarray(a): roots [2; 0] *)
    EOp OAdd [2; 2] 1; EWrap 3; EDel 1;                   (* r = add(x, x): roots [4; 2; 0] *)
-   EGetView 4 0; EDerive 6; EDel 1;                      (* out = to_numpy(r): roots [7; 4; 2; 0] *)
-   EDel 1; ECollect [6; 4; 3]].                          (* del r; the collector takes data, r, its storage *)
+   EGetView 4 0; ECollapse 5; EDel 1;                    (* out = to_numpy(r): roots [6; 4; 2; 0] *)
+   EDel 1; ECollect [5; 4; 3]].                          (* del r; the collector takes data, r, its storage *)
 
 Theorem no_use_after_free_refuted_proof :
-  exists (dt : Z) (h : list event), safeb (run (site_cfg (wrapped_dtype dt)) h) = false.
-Proof. exists 2%Z, uaf_history. reflexivity. Qed.
+  exists (dt : Z) (h : list event),
+    edges_ok (site_cfg (wrapped_dtype dt)) = true /\ safeb (run (site_cfg (wrapped_dtype dt)) h) = false.
+Proof. exists 2%Z, uaf_history. split; reflexivity. Qed.
+
+(* the collapse is the ONLY culprit in that history: with EDerive in its place (what NumPy does for a plain
+   dtype) the same deletions are safe *)
+Example uaf_history_is_the_collapse :
+  no_collapse uaf_history = false
+  /\ safeb (run (site_cfg false)
+                (map (fun e => match e with ECollapse v => EDerive v | _ => e end) uaf_history)) = true.
+Proof. split; reflexivity. Qed.
 
 (* the same history is safe for a plain dtype (views are not wrapped: the object ids differ by one) *)
 Example no_use_after_free_nonvacuous :
